@@ -44,6 +44,65 @@ enum Inj {
     /// the genuine handshake datagram that is about to be delivered to the victim (emitted, still in
     /// flight) with one bit flipped, injected just before the unmodified original
     FlipPending { bit: usize, label: String },
+    /// a WELL-FORMED handshake message in a cleartext (epoch `epoch`) handshake record: type, the
+    /// message sequence number (0..=8 covers "already seen", "the next expected" and "future" for
+    /// both roles), an empty or a plausible body; record sequence number high enough to be fresh
+    Handshake { msg_type: u8, message_seq: u16, body: u8, epoch: u16, stranger: bool },
+}
+
+const HS_TYPES: [u8; 10] = [0, 1, 2, 3, 11, 12, 14, 16, 20, 4];
+
+fn hs_type_name(t: u8) -> &'static str {
+    match t {
+        0 => "HelloRequest",
+        1 => "ClientHello",
+        2 => "ServerHello",
+        3 => "HelloVerifyRequest",
+        4 => "NewSessionTicket",
+        11 => "Certificate",
+        12 => "ServerKeyExchange",
+        14 => "ServerHelloDone",
+        16 => "ClientKeyExchange",
+        20 => "Finished",
+        _ => "?",
+    }
+}
+
+/// body kind 0 = empty, 1 = a plausible body for the type
+fn hs_body(msg_type: u8, kind: u8) -> Vec<u8> {
+    if kind == 0 {
+        return vec![];
+    }
+    match msg_type {
+        1 => {
+            // ClientHello: version, random, empty session id, empty cookie, one suite, null compression, no extensions
+            let mut v = vec![0xfe, 0xfd];
+            v.extend((0..32u8).map(|i| i.wrapping_mul(5).wrapping_add(1)));
+            v.extend_from_slice(&[0, 0, 0, 2, 0xc0, 0x2b, 1, 0]);
+            v
+        }
+        2 => {
+            let mut v = vec![0xfe, 0xfd];
+            v.extend((0..32u8).map(|i| i.wrapping_mul(9).wrapping_add(3)));
+            v.extend_from_slice(&[0, 0xc0, 0x2b, 0]);
+            v
+        }
+        3 => vec![0xfe, 0xfd, 4, 0xde, 0xad, 0xbe, 0xef], // HelloVerifyRequest with a 4-byte cookie
+        11 => vec![0, 0, 0],                               // empty certificate list
+        12 => {
+            let mut v = vec![3, 0, 23, 65, 4];
+            v.extend((0..64u8).map(|i| i.wrapping_mul(3).wrapping_add(7)));
+            v.extend_from_slice(&[4, 3, 0, 8, 0x30, 6, 2, 1, 1, 2, 1, 1]);
+            v
+        }
+        16 => {
+            let mut v = vec![65, 4];
+            v.extend((0..64u8).map(|i| i.wrapping_mul(11).wrapping_add(5)));
+            v
+        }
+        20 => vec![0x5a; 12],
+        _ => vec![0, 0, 0, 0],
+    }
 }
 
 impl Inj {
@@ -56,6 +115,7 @@ impl Inj {
             Inj::Reepoch { epoch } => format!("genuine-reepoch({epoch})"),
             Inj::Reflect => "own-record-reflected".into(),
             Inj::FlipPending { bit, label } => format!("bitflip-of-pending[{label}](byte-class={})", pending_region(*bit / 8)),
+            Inj::Handshake { msg_type, message_seq, body, epoch, stranger } => format!("cleartext-handshake(type={},message_seq={message_seq},body={},epoch={epoch},from={})", hs_type_name(*msg_type), if *body == 0 { "empty" } else { "plausible" }, if *stranger { "stranger" } else { "peer-addr" }),
         }
     }
 }
@@ -126,6 +186,13 @@ struct Obs {
     inj_states: Option<(String, String)>,
 }
 
+/// the fields a verdict is computed from (datagram counts and lengths of the handshake vary with
+/// the DER sizes of fresh signatures and are not part of any verdict)
+#[allow(clippy::type_complexity)]
+fn core(o: &Obs) -> (&[Vec<Vec<u8>>; 2], &[String; 2], &[bool; 2], &[Vec<String>; 2], usize, &Option<(String, String)>) {
+    (&o.delivered, &o.state, &o.exporter_ok, &o.hist, o.injected, &o.inj_states)
+}
+
 fn sample(a: &End, b: &End, hist: &mut [Vec<String>; 2]) {
     for (i, e) in [a, b].into_iter().enumerate() {
         let s = sim::state_name(&e.dtls.get_state()).to_string();
@@ -178,6 +245,11 @@ fn build_injection(inj: &Inj, genuine: Option<&Dgram>, own: Option<&Dgram>, pend
         Inj::Reflect => {
             let g = own?;
             Some(Dgram { data: g.data.clone(), from: peer, to })
+        }
+        Inj::Handshake { msg_type, message_seq, body, epoch, stranger } => {
+            let b = hs_body(*msg_type, *body);
+            let h = wire::Hs { msg_type: *msg_type, length: b.len() as u32, message_seq: *message_seq, frag_off: 0, frag_len: b.len() as u32, body: b };
+            Some(Dgram { data: wire::encode_record(22, *epoch, 0x2000 + *message_seq as u64, &wire::encode_hs(&h)), from: if *stranger { sim::addr(sim::ADDR_X) } else { peer }, to })
         }
         Inj::FlipPending { bit, .. } => {
             let g = pending?;
@@ -269,7 +341,7 @@ fn run(sc: Option<&Scenario>, seed: u64) -> Option<Obs> {
                             }
                             continue;
                         }
-                        let injs = inject_p(st, &genuine_to, next.as_ref());
+                        let injs = if obs.injected > 0 { vec![] } else { inject_p(st, &genuine_to, next.as_ref()) };
                         if !injs.is_empty() {
                             let v: &End = if sc.as_ref().map(|s| s.victim) == Some(Side::A) { &a } else { &b };
                             let before = sim::state_name(&v.dtls.get_state()).to_string();
@@ -486,7 +558,20 @@ fn catalog(stage: Stage, genuine_len: usize, thorough: bool) -> Vec<Inj> {
             v.push(Inj::Reepoch { epoch: e });
         }
     }
-    let _ = thorough;
+    for msg_type in HS_TYPES {
+        for message_seq in 0..=8u16 {
+            for body in [0u8, 1] {
+                v.push(Inj::Handshake { msg_type, message_seq, body, epoch: 0, stranger: false });
+                if thorough || message_seq == 4 || message_seq == 6 {
+                    v.push(Inj::Handshake { msg_type, message_seq, body, epoch: 0, stranger: true });
+                }
+                if thorough && body == 1 {
+                    // the same message claiming a protected epoch without being protected
+                    v.push(Inj::Handshake { msg_type, message_seq, body, epoch: 1, stranger: false });
+                }
+            }
+        }
+    }
     v
 }
 
@@ -778,12 +863,12 @@ fn main() {
             // determinism: replay twice
             for _ in 0..2 {
                 let again = run(Some(sc), seed);
-                if again.as_ref() != Some(o) {
-                    vh::machinery_failure(&format!("nondeterministic replay of {sc:?}"));
+                if again.as_ref().map(core) != Some(core(o)) {
+                    vh::machinery_failure(&format!("nondeterministic replay of {sc:?}: {:?} vs {:?}", again.as_ref().map(core), core(o)));
                 }
             }
         } else if i % 97 == 0 {
-            if run(Some(sc), seed).as_ref() != Some(o) {
+            if run(Some(sc), seed).as_ref().map(core) != Some(core(o)) {
                 vh::machinery_failure(&format!("nondeterministic replay of {sc:?}"));
             }
         }
@@ -870,6 +955,7 @@ fn scenario_to_json(sc: &Scenario) -> serde_json::Value {
         Inj::Reepoch { epoch } => json!({"k": "reepoch", "epoch": epoch}),
         Inj::Reflect => json!({"k": "reflect"}),
         Inj::FlipPending { bit, label } => json!({"k": "flip-pending", "bit": bit, "label": label}),
+        Inj::Handshake { msg_type, message_seq, body, epoch, stranger } => json!({"k": "handshake", "msg_type": msg_type, "message_seq": message_seq, "body": body, "epoch": epoch, "stranger": stranger}),
     }).collect::<Vec<_>>()})
 }
 
@@ -887,6 +973,7 @@ fn scenario_from_json(r: &serde_json::Value) -> Scenario {
         "trunc" => Inj::Truncate { len: i["len"].as_u64().unwrap() as usize },
         "reepoch" => Inj::Reepoch { epoch: i["epoch"].as_u64().unwrap() as u16 },
         "reflect" => Inj::Reflect,
+        "handshake" => Inj::Handshake { msg_type: i["msg_type"].as_u64().unwrap() as u8, message_seq: i["message_seq"].as_u64().unwrap() as u16, body: i["body"].as_u64().unwrap() as u8, epoch: i["epoch"].as_u64().unwrap() as u16, stranger: i["stranger"].as_bool().unwrap() },
         "flip-pending" => Inj::FlipPending { bit: i["bit"].as_u64().unwrap() as usize, label: i["label"].as_str().unwrap_or("").to_string() },
         _ => Inj::Readdress,
     }).collect();
